@@ -103,7 +103,7 @@ def main(argv):
 
     # ---- 1. proof obligations -------------------------------------------------------------
     bad_words = C.gate()
-    ok_build, build_log = C.coq_build()
+    ok_build, build_log = C.coq_build(prop.coq_targets or [f"Properties/{pid}.vo", f"Model/Check{pid}.vo"])
     pf = C.check_property_file(pid) if ok_build else {
         "theorems": [], "obligations": len(prop.theorems), "discharged": 0, "ok": False,
         "log": build_log[-3000:], "axioms": []}
